@@ -23,12 +23,12 @@ Definition ex_env (authorization remote_user : pystr) : environ :=
      e_fwd_proto := []; e_fwd_server := []; e_x_script := None; e_script := []; e_auth := authorization;
      e_ctype := []; e_remote_user := remote_user; e_x_remote_user := str "root"; e_clen := CLNum 10%Z |}.
 Definition ex_gate := gate lower_ascii upper_ascii ex_decode ex_backend (fun _ _ _ _ => HNotAllowed)
-                           (fun _ => false) (fun _ => true) (fun _ => false).
+                           (fun _ => false) (fun _ => false) (fun _ => true) (fun _ => false).
 
 (* c05_gate: a handler does run with a non-empty user (and the home is created first) *)
 Example ex_gate_dispatch :
   ex_gate (ex_cfg AOther) (ex_env (str "Basic YWxpY2U6cHc=") []) =
-  {| r_effects := [EBackend (str "alice") (str "pw"); EHome (str "alice") true;
+  {| r_effects := [EBackend (str "alice") (str "pw"); EHomeRecheck (str "alice") false; EHome (str "alice") true;
                    EDispatch (str "PROPFIND") [] (str "/alice/") (str "alice")];
      r_final := FForbidden |}.
 Proof. vm_compute. reflexivity. Qed.
@@ -61,11 +61,11 @@ Example ex_gate_spoof :
   ex_gate (ex_cfg AOther) (ex_env [] (str "root")) =
     {| r_effects := [EDispatch (str "PROPFIND") [] (str "/alice/") []]; r_final := FUnauthorized |}
   /\ ex_gate (ex_cfg ARemoteUser) (ex_env [] (str "bob")) =
-    {| r_effects := [EBackend (str "bob") []; EHome (str "bob") true;
+    {| r_effects := [EBackend (str "bob") []; EHomeRecheck (str "bob") false; EHome (str "bob") true;
                      EDispatch (str "PROPFIND") [] (str "/alice/") (str "bob")];
        r_final := FForbidden |}
   /\ ex_gate (ex_cfg AXRemoteUser) (ex_env [] (str "bob")) =
-    {| r_effects := [EBackend (str "root") []; EHome (str "root") true;
+    {| r_effects := [EBackend (str "root") []; EHomeRecheck (str "root") false; EHome (str "root") true;
                      EDispatch (str "PROPFIND") [] (str "/alice/") (str "root")];
        r_final := FForbidden |}.
 Proof. vm_compute. repeat split; reflexivity. Qed.
